@@ -95,6 +95,8 @@ struct NetHooks {
   std::function<size_t(Stream *, int side, size_t want, size_t avail)> read_cut;
   // Max bytes the next send() on this stream side may accept; return 0 for EAGAIN, SIZE_MAX no limit.
   std::function<size_t(Stream *, int side, size_t len)> write_cut;
+  // True while side `side` of the stream cannot take more bytes (peer's window closed): not writable, send() gives EAGAIN.
+  std::function<bool(Stream *, int side)> write_blocked;
   // A would-block wait: run the rest of the world until pred() or timeout. Returns when done.
   std::function<void(int node, std::function<bool()> ready, int64_t timeout_ms)> block;
   // called for each allocation; return true to fail it.
